@@ -313,12 +313,12 @@ pub fn raw_board(detail: &str) -> Option<(Fields, u64)> {
     Some((Fields { sq, stm, castle, ep, wk, bk, ring_ok }, key))
 }
 
-pub fn raw_table(detail: &str) -> Vec<(u64, u8)> {
+pub fn raw_table(detail: &str) -> Vec<(u64, u32)> {
     let mut v = Vec::new();
     if let Some(t) = kv(detail, "table") {
         for e in t.split(',') {
             if let Some((k, c)) = e.split_once(':') {
-                if let (Ok(k), Ok(c)) = (u64::from_str_radix(k, 16), c.parse::<u8>()) {
+                if let (Ok(k), Ok(c)) = (u64::from_str_radix(k, 16), c.parse::<u32>()) {
                     if c != 0 {
                         v.push((k, c));
                     }
